@@ -5,7 +5,7 @@
    Reference: RichModel.SpecTextOps (characters with the ordered list of covering styles). *)
 From RichModel Require Import Prelude Cells TextOps SpecTextOps.
 From RichGen Require Import ControlCodes.
-From RichProofs Require Import TextOpsP TextOpsP2 TextOpsP3 TextOpsP4 TextOpsP5 TextOpsP6.
+From RichProofs Require Import TextOpsP TextOpsP2 TextOpsP3 TextOpsP4 TextOpsP5 TextOpsP6 TextOpsP7.
 
 (* (0) the facts of /repo the model was written for *)
 Example C05_strip_codes_pinned : STRIP_CONTROL_CODES = [8; 11; 12; 13].
@@ -59,6 +59,43 @@ Print Assumptions C05_divide_family_small.
 Example C05_divide_family_small_nonvacuous :
   (length small_texts, length small_ops) = (2116%nat, 157%nat).
 Proof. exact small_domain_size. Qed.
+
+(* (1c) SEVERAL LIVE VALUES.  Histories over a store of named Text values: `y := x.copy()` and the
+   other operations that return a Text built from the receiver's parts (blank_copy, t[i], t[a:b],
+   split/divide -- one line or the whole `Lines` --, join, assemble), in-place edits of any stored value,
+   and operations that take other stored values as arguments (append, append_text, copy_styles, join,
+   assemble).
+   Frame: a step changes at most the slot it names; every other live value is exactly what it was.
+   IMPORTANT: in this purely functional model the frame property holds by construction -- values cannot
+   share mutable parts, so the model CANNOT exhibit aliasing (a copy sharing its source's span list, as
+   in seeded/C05-m2).  What the theorems give is the reference behaviour: the store of independent
+   reference values.  That the implementation's OBJECTS behave like independent values is tied by the
+   multi-object correspondence only: `store_hist` runs the same store history on real Text objects and
+   compares EVERY live object with the model after EVERY step (plain, _length, _spans, metadata,
+   rendered styles), and `spec.store_hist_ok` checks refines_b for every live object against srun_ref. *)
+Theorem C05_store_frame : forall fx sops st k t,
+  nth_error st k = Some t -> Forall (fun s => starget s <> Some k) sops ->
+  nth_error (srun fx sops st) k = Some t.
+Proof. intros fx sops st k t. exact (srun_frame fx sops st k t). Qed.
+Print Assumptions C05_store_frame.
+
+(* full statement: the same without `forallb proved_sop sops` (missing: SLines and SApply of the four
+   divide-based operations, as in (1)) *)
+Theorem C05_store_refine_partial : forall sops st,
+  Forall Consistent st -> forallb proved_sop sops = true -> in_sdomain sops (map abs st) = true ->
+  map abs (srun FIXED sops st) = srun_ref sops (map abs st) /\ Forall Consistent (srun FIXED sops st).
+Proof. exact store_refine_proved. Qed.
+Print Assumptions C05_store_refine_partial.
+
+Example C05_store_nonvacuous :
+  let st := [ctor FIXED (lit "hello world") (default_meta 0) [(0, 5, 1); (6, 11, 2)]] in
+  let sops := [SApply 1 0 OCopy; SApply 0 0 (ORightCrop 3); SApply 0 0 (OPadLeft 2 32); SAppendText 1 0;
+               SJoin 2 1 [0; 1; 0]%nat; SAssemble 3 4 [2; 0]%nat] in
+  Forall Consistent st /\ forallb proved_sop sops = true /\ in_sdomain sops (map abs st) = true /\
+  (* the copy made in step 1 is untouched by the two edits of its source *)
+  nth_error (srun FIXED (firstn 3 sops) st) 1 = nth_error (srun FIXED (firstn 1 sops) st) 1 /\
+  length (srun FIXED sops st) = 4%nat.
+Proof. vm_compute. repeat split; try reflexivity. repeat constructor. Qed.
 
 (* the constructor establishes the invariant, whatever control codes the string contains *)
 Theorem C05_constructor : forall s m, Consistent (ctor FIXED s m []) /\ abs (ctor FIXED s m []) = r_ctor s m.
